@@ -43,7 +43,7 @@ def tlc_mkdir2(scn, tolerate=True):
     import re
     cfg = os.path.join(workdir(), "mk2-%s-%s.cfg" % (scn, tolerate))
     with open(cfg, "w") as f:
-        f.write("SPECIFICATION Spec\nCONSTANTS\n  Procs = {\"p1\", \"p2\"}\n  Scenario <- %s\n  MaxIno = 20\n  KMaxLinks = 40\n  TolerateEEXIST = %s\n  MaxAttack = 0\n"
+        f.write("SPECIFICATION Spec\nCONSTANTS\n  Procs = {\"p1\", \"p2\"}\n  Scenario <- %s\n  MaxIno = 20\n  KMaxLinks = 40\n  TolerateEEXIST = %s\n  MaxAttack = 0\n  RefuseDotDotTail = TRUE\n  AtkMkdirNames <- const_NoNames\n"
                 "INVARIANTS TypeOK AllSucceed HandleIsResolution OnlyNewDirs\nCHECK_DEADLOCK FALSE\n" % (scn, "TRUE" if tolerate else "FALSE"))
     dump = os.path.join(workdir(), "mk2-%s" % scn)
     r = run_tlc("MC_Mkdir2.tla", cfg, workers=1, timeout=900, extra=["-dump", "dot,actionlabels", dump])
